@@ -38,6 +38,8 @@ MUTANTS = [
       "relatedData, tracesRecord, err := tracesotlp.RelatedDataFrom(records, c.tracesConfig)\n\tif err != nil {\n\t\treturn nil, werror.Wrap(err)\n\t}", "relatedData, tracesRecord, err := tracesotlp.RelatedDataFrom(records, c.tracesConfig)", ["C07"]),
     S("c07-d14-records-not-retained", "pkg/otel/arrow_record/consumer.go",
       "\tretainRecords(records)\n\tdefer releaseRecords(records)\n", "", ["C07"], count=3),
+    S("c07-d18-missing-main-record-is-success", "pkg/otel/arrow_record/consumer.go",
+      "if tracesRecord == nil && len(records) > 0 {", "if false && tracesRecord == nil && len(records) > 0 {", ["C07"]),
     S("c08-remove-spanid-guard", "pkg/otel/traces/arrow/traces.go",
       "if spanID == math.MaxUint16 {\n\t\t\t\treturn werror.Wrap(acommon.ErrTooManyParents)\n\t\t\t}\n", "", ["C08"]),
     S("c12-batchid-incremented-on-error-too", "pkg/otel/arrow_record/producer.go",
